@@ -39,6 +39,7 @@ pub const SUBS: &[SubDef] = &[
     SubDef { prop: "C07", name: "cap", oracle: cap },
     SubDef { prop: "C07", name: "oversize_first", oracle: oversize_first },
     SubDef { prop: "C07", name: "big_heartbeat", oracle: big_heartbeat },
+    SubDef { prop: "C07", name: "negotiated", oracle: negotiated },
 ];
 
 fn run(ctx: &Ctx) {
@@ -79,6 +80,7 @@ fn run(ctx: &Ctx) {
     ctx.run_tape("cap", cap, ctx.pick(12, 120), 64);
     ctx.run_tape("oversize_first", oversize_first, ctx.pick(8, 48), 64);
     ctx.run_tape("big_heartbeat", big_heartbeat, ctx.pick(400, 6000), 64);
+    ctx.run_tape("negotiated", negotiated, ctx.pick(12_000, 120_000), 400);
     // hand-built continuation records of 4 GiB and more (zero pages, never touched): the size test must hold in full usize arithmetic
     ctx.run_fn("huge_continuation", true, "2 first fragments x continuation records of 2^32-1, 2^32, 2^32+1000 and 2^32+10 MiB bytes while defragmenting: refused with TooLarge, state unchanged, the defragmentation still completes", |obs| {
         let sizes = [(1usize << 32) - 1, 1 << 32, (1 << 32) + 1000, (1 << 32) + MAX_DATA];
@@ -604,6 +606,60 @@ fn oversize_first(t: &mut Tape, obs: &mut Obs) -> R {
     ensure!(matches!(got, Sum::Ok { .. }), "C07:oversize-first:after-reset", "after reset() a complete record answered {}", show_sum(&got));
     obs.nontrivial(n as u64);
     obs.sample(json!({"first_fragment_bytes": n}));
+    Ok(())
+}
+
+/// one parser sees a hello whose extensions negotiate something about later records (max_fragment_length, heartbeat mode,
+/// record_size_limit, connection_id, supported_versions ...), whole or defragmented, and then traffic: large application-data and
+/// handshake records, heartbeat records and fragments. "After a completed message it behaves like a fresh parser": the reference model
+/// has no memory of the hello
+fn negotiated(t: &mut Tape, obs: &mut Obs) -> R {
+    let (ext, _) = gen_negotiation_ext(t);
+    let hello = if t.bool() {
+        MHs::ServerHello { version: 0x0303, random: t.bytes(32), sid: None, cipher: 0xc02f, comp: 0, ext: Some(ext.clone()) }
+    } else {
+        MHs::ClientHello { version: 0x0303, random: t.bytes(32), sid: None, ciphers: vec![0xc02f, 0x1301], comp: vec![0], ext: Some(ext.clone()) }
+    };
+    let hb = hello.to_bytes();
+    let mut p = TlsRecordsParser::default();
+    let mut m = Model::default();
+    let mut trace = String::new();
+    let split = t.bool();
+    if split {
+        let c = 1 + t.below(hb.len() - 1);
+        step(&mut p, &mut m, &Op::Parse(Rec::new(0x16, 0x0303, hb[..c].to_vec())), "hello, first fragment")?;
+        let got = step(&mut p, &mut m, &Op::Parse(Rec::new(0x16, 0x0303, hb[c..].to_vec())), "hello, last fragment")?;
+        ensure!(matches!(got, Sum::Ok { .. }), "C07:negotiated:hello", "the defragmented hello answered {}", show_sum(&got));
+    } else {
+        let got = step(&mut p, &mut m, &Op::Parse(Rec::new(0x16, 0x0303, hb.clone())), "hello")?;
+        ensure!(matches!(got, Sum::Ok { .. }), "C07:negotiated:hello", "the hello record answered {}", show_sum(&got));
+    }
+    trace.push_str(if split { "hello (2 fragments)" } else { "hello" });
+    let n = 1 + t.below(5);
+    for _ in 0..n {
+        let big = t.pick(&[513usize, 541, 600, 1025, 2049, 4097, 16384]);
+        let rec = match t.below(6) {
+            0 => Rec::new(0x17, 0x0303, vec![0x61; big]),
+            1 => {
+                // first fragment of a large Certificate message
+                let mut d = vec![11u8, 0, 0x40, 0];
+                d.extend(std::iter::repeat(0x30).take(big));
+                Rec::new(0x16, 0x0303, d)
+            }
+            2 => Rec::new(0x18, 0x0303, vec![1, 0, 2, 0xaa, 0xbb, 0, 0, 0, 0, 0, 0, 0, 0, 0, 0, 0, 0, 0, 0, 0, 0]),
+            3 => Rec::new(0x18, 0x0303, vec![2, 0]),
+            4 => Rec::new(0x16, 0x0303, MHs::Certificate { chain: vec![vec![0x30; big]] }.to_bytes()),
+            _ => Rec::new(0x15, 0x0303, vec![1, 0]),
+        };
+        trace.push_str(&format!(", {}", rec.short()));
+        step(&mut p, &mut m, &Op::Parse(rec), &trace)?;
+        if t.chance(60) {
+            step(&mut p, &mut m, &Op::Reset, &trace)?;
+            trace.push_str(", reset");
+        }
+    }
+    obs.nontrivial(fnv64(trace.as_bytes()) ^ fnv64(&ext));
+    obs.sample_class(if split { "hello-defragmented" } else { "hello-whole" }, || json!({"negotiating_extensions": hex_short(&ext), "history": trace}));
     Ok(())
 }
 
